@@ -114,6 +114,10 @@ def _rand_droplet(rng, spec, cls=None, *, roll_axis=None):
     if cls != "SphericalDroplet":
         wk = rng.random()
         width = None if wk < 0.25 else (0.0 if wk < 0.5 else float(rng.uniform(0.2, 3.0) * hm))
+        if wk >= 0.5 and R > 0 and rng.random() < 0.08:
+            # an interface several hundred to several thousand times thinner than the radius (round 7, C03_20): the
+            # profile is saturated deep inside the droplet, where its argument is of order 1e3
+            width = float(R / rng.uniform(400.0, 4000.0))
     amps = None
     if cls.startswith("Perturbed"):
         nmax = {"PerturbedDroplet2D": 6, "PerturbedDroplet3D": 8, "PerturbedDroplet3DAxisSym": 4}[cls]
@@ -196,6 +200,10 @@ def gen(rng, kind, tier):
             # the same droplet is first drawn (not judged) on a grid of the same shape and bounds whose axes are
             # periodic where this one's are not, or the other way round: earlier calls must not influence later ones
             case["sibling_first"] = True
+        if spec["family"] == "cart" and any(spec["periodic"]) and rng.random() < 0.3:
+            # round 7 (C03_19): the SAME droplet object is drawn once more, on the grid of the same shape and bounds
+            # without periodic axes, and that second picture is judged too - a render must not alter the droplet
+            case["rerender_nonperiodic"] = True
         return case
     if kind == "roll":
         dim = int(rng.choice([1, 2, 2, 3]))
@@ -379,6 +387,17 @@ def run(case, rec):
             if bool(np.any(np.linalg.norm(
                     geom.cell_centers_cart(grid) - np.asarray(d["pos"]), axis=-1) == 0)):
                 rec.count("centre_exactly_on_cell_centre")
+        if case.get("rerender_nonperiodic"):
+            spec2 = dict(spec)
+            spec2["periodic"] = [False] * len(spec["periodic"])
+            grid2 = geom.make_grid(spec2)
+            call3 = common.monitored(rec, "get_phase_field:again-nonperiodic", drop.result.get_phase_field, grid2,
+                                     vmin=vmin, vmax=vmax)
+            if rec.check(call3.ok, "no-exception",
+                         f"second render of the same droplet raised {common.exc_text(call3.exc) if call3.exc else ''} for {d}"):
+                check_single(grid2, spec2, d, vmin, vmax, np.array(call3.result.data, float), rec,
+                             ignore_known=case.get("ignore_known", False))
+                rec.count("same_object_rendered_again_on_the_nonperiodic_grid")
         if case.get("tie"):
             rec.count("cases_with_cells_exactly_on_the_interface")
         if d["radius"] == 0:
